@@ -22,6 +22,7 @@ RULE = ('values: all strings of length <= 3 (quick) / <= 4 (thorough) over {a, \
         'random unicode; ints, floats, bools, None, dates, datetimes; x positions {select list, WHERE, IN list, INSERT values, UPDATE set} x '
         'outputs {to_string, mysql, postgresql, sqlite, mssql, oracle}; non-trivial = value contains a hostile character or is not a str; '
         'distinct by (value, position, output)')
+RULE += "; also: long IN lists, equal-valued constants (1 / TRUE / 1.0 / '1') through one renderer object in every rotation, int/float literal syntax"
 ASSUMPTIONS = ['target rules: mysql and the library\'s own to_string: backslash escapes + doubled quote; postgresql (standard_conforming_strings), '
                'sqlite, mssql, oracle: doubled quote only',
                'backslash pairs other than \\\\ \\\' \\" have no single denotation in the mindsdb dialect and are not judged for to_string; '
